@@ -14,12 +14,20 @@ planted with addresses (null, inside the buffer, last byte, one past the end, be
 every pointer member/element of the parsed value dereferences to (value, recursively, or the exception class) is compared
 between the two readers.  Fallback probe: a structure class with a direct pointer member (through arrays) under a
 non-packable pointer type is one the generator cannot handle, so its `__compiled__` flag must be off.
+
+Endianness spellings (family (e), harness/v9_c03.py): directed runs of scalar members of differing sizes (increasing: uint8 then
+uint32, uint16 then uint64, char then double; decreasing; zig-zag; with block-splitting members in between) and samples of the
+definitions of families (a), (b), (c) are loaded on objects configured with every spelling the library accepts ('<', '>', '!',
+'@', '=' and the words of ENDIANNESS_MAP) through the constructor (keyword / positional), by assigning cs.endian before the load
+or by switching it after the load; both readers are compared on layout, value, sizes, consumed bytes, every cut point, and once
+more through another public entry point (T(bytes), reads(bytearray), read(memoryview / BytesIO / real file), cs.T[2], member of
+another structure); the compiled result is also checked against the Lean model under the byte order the spelling stands for.
 """
 from __future__ import annotations
 
 import itertools
 
-from .. import defs, impl, refimpl, s1_mixed, s2_ptr, srcplan
+from .. import defs, impl, refimpl, s1_mixed, s2_ptr, srcplan, v9_c03
 from ..common import A, Result, mkrng, sx
 from ..structprops import Engine, load, real_parse, small_unit_bits, rand_bytes, has_eof
 
@@ -84,7 +92,12 @@ def run(env) -> Result:
                 "pointer width 8..128 (packable and not); (c) 11 pointer-bearing field kinds alone, before/after 8 neighbours and in pairs x all 7 "
                 "pointer widths; inputs: random buffers with addresses planted into the pointer slots, then every cut point of one accepted "
                 "buffer. Compared: compiled vs interpreted (value, sizes, consumed, layout, what every pointer dereferences to), __compiled__ vs "
-                "fallback required, compiled vs Lean model of the interpreted reader, generated source vs plan validator. distinct = "
+                "fallback required, compiled vs Lean model of the interpreted reader, generated source vs plan validator; (e) endianness "
+                "spellings: directed runs of scalar members of differing sizes (increasing / decreasing / zig-zag / random, with block-splitting "
+                "members) and samples of (a), (b), (c) x every spelling {<, >, !, @, =, words of ENDIANNESS_MAP} x {constructor keyword, positional, "
+                "cs.endian before load, switched after load} x {packed, aligned} x pointer width; random buffers, every cut point, and one more "
+                "public entry point (bytes / bytearray / memoryview / BytesIO / file object / T[2] / member of a structure); compiled vs "
+                "interpreted and compiled vs Lean model under the byte order the spelling stands for. distinct = "
                 "(definition, config, input); non-trivial = >= 2 fields")
     eng = Engine(env, res, "C03")
     rnd = mkrng(env["seed"], "c03")
@@ -322,6 +335,8 @@ def run(env) -> Result:
                         eng.report(f"mixed alignment, start {pos}: compiled gives {str(wc)[:200]}, interpreted gives {str(wi)[:200]}", cd, [])
                     else:
                         res.feat("family-d:short-input:one-reader-raises")
+    # (e) endianness spellings x definition families x ways of configuring the object x parse entry points (harness/v9_c03.py)
+    v9_c03.run(env, res, eng, trees, pointer_fields())
     eng.flush()
     res.notes.append(f"{nplans[0]} generated sources translated to plans and validated")
     res.notes.append(f"{ncompiles[0]} structures compiled by the Lean model of the compiler and compared with the real plan / fallback")
